@@ -8,8 +8,8 @@ a genesis file loads back equal and an invalid genesis is refused.
 
 Part A: theorems for ALL tables and ALL values, under the table facts `TableOK`/`DefaultsStable`.
 Part B: the table regenerated from the compiled /repo code on every run (`Gen.C18`) has these
-facts — except for the known defects, for which the full statement is refuted on the generated
-table and the strongest partial statement is proved.
+facts, so the Part A theorems hold of the compiled code in full (the two defects for which they
+used to be refuted on the generated table were repaired in /repo: b15f31a, 76d1c39).
 Part C: the genesis file. -/
 namespace Spec.C18
 open Config
@@ -174,31 +174,20 @@ def nonConfigFlags : List String := ["home", "signer.passphrase"]
 /-- fields that deliberately are not options: the root directory (set from `--home`) -/
 def nonConfigFields : List String := ["RootDir"]
 
-/-- KNOWN DEFECT 1: `--rollkit.signer.type` / `--rollkit.signer.path` bind the viper keys
-`signer.type` / `signer.path`; the struct fields decode from `signer.signer_type` /
-`signer.signer_path`.  The flags are silently ignored. -/
-def knownIgnoredFlags : List String := ["rollkit.signer.path", "rollkit.signer.type"]
-/-- KNOWN DEFECT 2: `cfg := DefaultConfig` copies the `Instrumentation` pointer; `Load` decodes into
-the shared struct, so the defaults of a later `Load` in the same process are what this one resolved. -/
-def knownSharedPointers : List String := ["Instrumentation"]
+/-- **The table of the compiled code has every table fact**: every registered flag (other than
+`--home` and the signer passphrase) is bound to the key of exactly one option, every field (other
+than `RootDir`) is written by `SaveAsYaml` under the key `Load` decodes it from, keys and names are
+distinct, and every flag's registered default is the option's default.
 
-/-- the full statement about the compiled code -/
-def C18_table_full : Prop := TableOK table nonConfigFlags nonConfigFields
-/-- … is false of the current code (witness: the generated table itself) -/
-theorem C18_table_full_fails : ¬ C18_table_full := by unfold C18_table_full; decide
+(Until /repo commit b15f31a this was false — witness: `--rollkit.signer.type` / `--rollkit.signer.path`
+were bound to `signer.type` / `signer.path`, keys no field decodes from — and only the statement
+about the table without those two flags was proved.) -/
+theorem C18_table_full : TableOK table nonConfigFlags nonConfigFields := by decide
 
-/-- the flags that reach no option are exactly the two known ones -/
-theorem C18_ignored_flags_exact :
-    (table.flags.filter fun fl => fl.key ∉ nonConfigFlags ∧ reached table fl = []).map (·.name)
-      = knownIgnoredFlags := by decide
-
-/-- the table minus exactly those two flags has every fact -/
-theorem C18_table_partial : TableOK (table.dropFlags knownIgnoredFlags) nonConfigFlags nonConfigFields := by
-  decide
-
-/-- the two dropped flags bind keys no field decodes from, so dropping them changes `Load` for no field -/
-theorem C18_dropped_flags_touch_no_field :
-    ∀ f ∈ table.fields, ∀ fl ∈ table.flags, fl.name ∈ knownIgnoredFlags → fl.key ≠ f.ms := by decide
+/-- no registered flag of the compiled code is silently ignored: the flags that reach no option are
+exactly the listed non-config ones -/
+theorem C18_no_flag_ignored :
+    (table.flags.filter fun fl => fl.key ∉ nonConfigFlags ∧ reached table fl = []) = [] := by decide
 
 /-- the model's rule "a flag reaches the fields decoded from the key it binds" agrees with what the
 compiled `Load` did for every registered flag when the facts were generated -/
@@ -208,70 +197,68 @@ theorem C18_reaches_agrees : ∀ fl ∈ table.flags, fl.reaches = reached table 
 theorem C18_kinds_supported :
     ∀ f ∈ table.fields, f.kind ∈ ["string", "bool", "int", "uint", "float", "duration"] := by decide
 
-/-- the full statement about default stability -/
-def C18_defaults_full : Prop := DefaultsStable table
-theorem C18_defaults_full_fails : ¬ C18_defaults_full := by unfold C18_defaults_full; decide
-/-- everything shared is behind the one known pointer -/
-theorem C18_defaults_partial : ∀ f ∈ table.fields, f.via = "" ∨ f.via ∈ knownSharedPointers := by decide
+/-- **No option of the compiled code is decoded into memory shared with `DefaultConfig`.**
+(Until /repo commit 76d1c39 this was false — witness: every option behind the `Instrumentation`
+pointer.) -/
+theorem C18_defaults_full : DefaultsStable table := by decide
 
-/-- **C18 for the compiled code, partial.**  In every history of loads in one process, for every
-option that is not behind the known shared pointer, for all command lines and files: the real
-table's `resolve` is flag > file > default, where only the two known-ignored flags do not count as
-flags. -/
-theorem C18_precedence_partial {f : Field} (hf : f ∈ table.fields) (hc : f.go ∉ nonConfigFields)
-    (hv : f.via ∉ knownSharedPointers) (ops : List (Layer × Layer)) (args file : Layer) :
+/-- **C18 for the compiled code.**  In every history of loads in one process, for every option, for
+all command lines and files: the real table's `resolve` is flag > file > default, and reports the
+layer that supplied the value. -/
+theorem C18_precedence {f : Field} (hf : f ∈ table.fields) (hc : f.go ∉ nonConfigFields)
+    (ops : List (Layer × Layer)) (args file : Layer) :
     resolve table (runLoads table [] ops) args file f =
-      (specResolve (table.dropFlags knownIgnoredFlags) args file f,
-       specSrc (table.dropFlags knownIgnoredFlags) args file f) := by
-  have hs : f.shared = false := by
-    rcases C18_defaults_partial f hf with h | h
-    · simp [Field.shared, h]
-    · exact absurd h hv
-  have hD := history_keeps_unshared (T := table) C18_table_partial.2.2.2.2.1 hf hs ops [] rfl
-  rw [← resolve_dropFlags table knownIgnoredFlags _ args file f (C18_dropped_flags_touch_no_field f hf)]
-  exact precedence C18_table_partial hf hc _ args file hD
+      (specResolve table args file f, specSrc table args file f) := by
+  rw [history_keeps_defaults C18_defaults_full [] ops]
+  exact precedence C18_table_full hf hc _ args file rfl
 
-/-- the same for every option (shared or not) on the first load of a process -/
-theorem C18_precedence_partial_first_load {f : Field} (hf : f ∈ table.fields) (hc : f.go ∉ nonConfigFields)
-    (args file : Layer) :
-    resolve table [] args file f =
-      (specResolve (table.dropFlags knownIgnoredFlags) args file f,
-       specSrc (table.dropFlags knownIgnoredFlags) args file f) := by
-  rw [← resolve_dropFlags table knownIgnoredFlags _ args file f (C18_dropped_flags_touch_no_field f hf)]
-  exact precedence C18_table_partial hf hc _ args file rfl
-
-/-- every flag of the compiled code except the two known ones reaches exactly the option it names -/
-theorem C18_flags_reach_partial {fl : Flag} (hfl : fl ∈ table.flags) (hk : fl.name ∉ knownIgnoredFlags)
-    (hn : fl.key ∉ nonConfigFlags) :
+/-- every flag of the compiled code that is not in the non-config list reaches exactly the option it
+names, whatever the file and an earlier load say -/
+theorem C18_flags_reach {fl : Flag} (hfl : fl ∈ table.flags) (hn : fl.key ∉ nonConfigFlags) :
     ∃ f ∈ table.fields, fl.key = f.yaml ∧
-      (∀ (D file : Layer) (v : String), resolve table D [(fl.name, v)] file f = (v, .flag)) := by
-  have hfl' : fl ∈ (table.dropFlags knownIgnoredFlags).flags :=
-    List.mem_filter.mpr ⟨hfl, by simpa using hk⟩
-  obtain ⟨f, hf, hy, hr, _⟩ := flag_reaches_its_option C18_table_partial hfl' hn
-  refine ⟨f, hf, hy, fun D file v => ?_⟩
-  rw [← resolve_dropFlags table knownIgnoredFlags _ _ file f (C18_dropped_flags_touch_no_field f hf)]
-  exact hr D file v
+      (∀ (D file : Layer) (v : String), resolve table D [(fl.name, v)] file f = (v, .flag)) ∧
+      (∀ g ∈ table.fields, g.ms = fl.key → g = f) :=
+  flag_reaches_its_option C18_table_full hfl hn
 
-/-- save → load identity holds for every option of the compiled code (the known defects do not touch it) -/
+/-- save → load identity holds for every option of the compiled code, in every history of loads -/
 theorem C18_save_load {f : Field} (hf : f ∈ table.fields) (hc : f.go ∉ nonConfigFields)
     (D : Layer) (c : String → String) :
-    resolve table D [] (save table c) f = (c f.go, .file) := by
-  rw [← resolve_dropFlags table knownIgnoredFlags _ _ _ f (C18_dropped_flags_touch_no_field f hf)]
-  exact save_load C18_table_partial hf hc D c
+    resolve table D [] (save table c) f = (c f.go, .file) :=
+  save_load C18_table_full hf hc D c
+
+/-- … and for the whole configuration -/
+theorem C18_save_load_all (D : Layer) (c : String → String) :
+    (load table D [] (save table c)).filter (fun p => p.1 ∉ nonConfigFields) =
+      ((table.fields.filter (fun f => f.go ∉ nonConfigFields)).map fun f => (f.go, c f.go)) :=
+  save_load_all C18_table_full D c
+
+/-- no history of loads changes what the next load of the compiled code starts from -/
+theorem C18_history_keeps_defaults (ops : List (Layer × Layer)) : runLoads table [] ops = [] :=
+  history_keeps_defaults C18_defaults_full [] ops
 
 /-! ### non-vacuity -/
 
-/-- the known-ignored flag on the generated table: the model's `Load` keeps the default -/
+/-- the signer flag (ignored before the repair) on the generated table beats the file -/
 example : (table.fields.find? (·.go = "Signer.SignerType")).map
-    (fun f => resolve table [] [("rollkit.signer.type", "grpc")] [] f) = some ("file", .dflt) := by decide
-/-- a healthy flag on the generated table beats the file -/
+    (fun f => resolve table [] [("rollkit.signer.type", "grpc")] [("signer.signer_type", "x")] f)
+      = some ("grpc", .flag) := by decide
+/-- a flag on the generated table beats the file -/
 example : (table.fields.find? (·.go = "Node.BlockTime")).map
     (fun f => resolve table [] [("rollkit.node.block_time", "7s")] [("node.block_time", "9s")] f)
       = some ("7s", .flag) := by decide
-/-- the shared pointer: what one load read from the file is the next load's "default" -/
+/-- after a load that read `instrumentation.namespace` from its file, a load without flag and file
+resolves it to the default again (before the repair: to the earlier value, `.stale`) -/
 example : (table.fields.find? (·.go = "Instrumentation.Namespace")).map
-    (fun f => resolve table (runLoads table [] [([], [("instrumentation.namespace", "x")])]) [] [] f)
-      = some ("x", .stale) := by decide
+    (fun f => (resolve table (runLoads table [] [([], [("instrumentation.namespace", "x")])]) [] [] f).2)
+      = some .dflt := by decide
+/-- the table facts are not trivially true: a table whose flag binds a key no field decodes from
+(the defect repaired by b15f31a), and one with a field behind a shared pointer (76d1c39), lack them -/
+example : ¬ TableOK (Table.ofRows [("S.T", "s.s_t", "s.s_t", "string", "d", "")] [("rollkit.s.t", "s.t", "string", "d", [])]) [] [] := by
+  decide
+example : ¬ DefaultsStable (Table.ofRows [("I.N", "i.n", "i.n", "string", "d", "I")] []) := by decide
+example : (resolve (Table.ofRows [("I.N", "i.n", "i.n", "string", "d", "I")] [])
+    (runLoads (Table.ofRows [("I.N", "i.n", "i.n", "string", "d", "I")] []) [] [([], [("i.n", "x")])]) [] []
+    (Field.ofRow ("I.N", "i.n", "i.n", "string", "d", "I"))) = ("x", .stale) := by decide
 example : TableOK (Table.ofRows [("A.B", "a.b", "a.b", "string", "d", "")] [("rollkit.a.b", "a.b", "string", "d", ["A.B"])]) [] [] := by
   decide
 
@@ -313,6 +300,49 @@ theorem genesis_loaded_is_valid (j : JFile) (g : Genesis) (h : GenesisFile.load 
   cases hv : validate (parse j) with
   | some r => rw [hv] at h; cases h
   | none => rw [hv] at h; cases h; exact hv
+
+/-- **Saving replaces what the path held.**  Whatever files exist already (in particular a longer
+or a shorter genesis at the same path), after `Save g` to path `p` loading `p` gives exactly what
+loading a fresh file holding `g` gives: nothing of the earlier content survives. -/
+theorem genesis_save_replaces (d : Disk) (p : Nat) (g : Genesis) :
+    loadAt (saveAt d p g) p = loadAt (saveAt [] p g) p := by
+  simp [loadAt, saveAt]
+
+/-- a valid genesis saved over any existing file loads back equal (modulo the time location) -/
+theorem genesis_load_save_at (d : Disk) (p : Nat) (g : Genesis) (h : validate g = none) :
+    loadAt (saveAt d p g) p = .ok (normLoc g) := by
+  have := genesis_load_save g h
+  simp [loadAt, saveAt, this]
+
+/-- an invalid genesis saved over any existing (possibly valid) file is refused for its own reason -/
+theorem genesis_invalid_refused_at (d : Disk) (p : Nat) (g : Genesis) (r : Refusal) (h : validate g = some r) :
+    loadAt (saveAt d p g) p = .error (.refused r) := by
+  have := genesis_invalid_refused g r h
+  simp [loadAt, saveAt, this]
+
+/-- saving to one path leaves every other path as it was -/
+theorem genesis_save_other_path (d : Disk) (p q : Nat) (g : Genesis) (hq : q ≠ p) :
+    loadAt (saveAt d p g) q = loadAt d q := by
+  have : (q == p) = false := by simpa using hq
+  simp [loadAt, saveAt, List.lookup, this]
+
+/-- saves to other paths, however many, leave a path as it was -/
+theorem genesis_saves_elsewhere (p : Nat) :
+    ∀ (later : List (Nat × Genesis)) (d : Disk), (∀ x ∈ later, x.1 ≠ p) →
+      loadAt (later.foldl (fun d x => saveAt d x.1 x.2) d) p = loadAt d p
+  | [], _, _ => rfl
+  | x :: rest, d, h => by
+    rw [List.foldl_cons, genesis_saves_elsewhere p rest _ fun y hy => h y (List.mem_cons_of_mem _ hy)]
+    exact genesis_save_other_path d x.1 p x.2 (h x List.mem_cons_self).symm
+
+/-- what a path holds is what the LAST save to it put there, in every history of saves -/
+theorem genesis_last_save_wins (d : Disk) (p : Nat) (g : Genesis) (later : List (Nat × Genesis))
+    (h : ∀ x ∈ later, x.1 ≠ p) :
+    loadAt (later.foldl (fun d x => saveAt d x.1 x.2) (saveAt d p g)) p = loadAt (saveAt [] p g) p := by
+  rw [genesis_saves_elsewhere p later _ h]
+  exact genesis_save_replaces d p g
+
+example : loadAt [] 1 = .error .noFile := rfl
 
 example : validate { chainId := [1], time := ⟨0, 0, 0, "UTC"⟩, initialHeight := 1, proposer := some [] } = none := by decide
 example : validate { chainId := [1], time := ⟨zeroUnix, 0, 60, "CET"⟩, initialHeight := 1, proposer := some [] } = some .daStartTime := by decide
